@@ -48,7 +48,8 @@ type FuncContract struct {
 	HasMod                  bool
 	Loops                   map[int]*LoopSpec
 	Split                   *SplitSpec
-	Trusted                 bool // body not verified: the contract is an assumption
+	Trusted                 bool     // body not verified: the contract is an assumption
+	Uses                    []string // lemmas assumed (universally quantified) in this unit
 	Constructs              string
 	Refines                 []string // interface types whose method contract this method is checked against
 	TrustedPost             bool     // body verified for safety/pre/lock/frame only: the ensures clauses are assumptions
@@ -547,6 +548,13 @@ func (cs *Contracts) LoadFile(path, pkgPath string, fromRepo bool) error {
 			// constructs pkg.Interface : the first result is an object whose interface-level ghost view
 			// (ghost fields with `abstracts` declarations) the postconditions describe
 			cur.Constructs = sf.expandKey(rest)
+		case "uses":
+			// uses lemma_name[, lemma_name] : the lemma (proved on its own) is available as a quantified fact
+			for _, n := range strings.Split(rest, ",") {
+				if n = strings.TrimSpace(n); n != "" {
+					cur.Uses = append(cur.Uses, n)
+				}
+			}
 		case "refines":
 			// refines pkg.Interface : the interface method contract of the same name must follow from this body
 			cur.Refines = append(cur.Refines, sf.expandKey(rest))
